@@ -52,3 +52,9 @@ Theorem C10_msg_history_holds_for_current_tree :
             P_mhist p (ms_rates s) (map to_avote (ms_votes s)) (map to_prevote (ms_prevotes s)) o.
 Proof. exact (msg_holds_for_cfg current_cfg C10_current_cfg_ok). Qed.
 Print Assumptions C10_msg_history_holds_for_current_tree.
+
+(** NewExchangeRateTuplesFromString keeps a set of ALL pairs seen so far ([cc_dup_check = DupSeenSet]): a vote string that names a
+    pair twice — adjacent or not — never parses, so (C10_one_vote_per_validator_and_pair) the tally never sees two votes of one
+    validator for one pair *)
+Theorem C10_duplicate_pairs_refused_in_current_tree : dup_variant current_cfg = Some true.
+Proof. vm_compute. reflexivity. Qed.
